@@ -8,6 +8,7 @@
 import Grenad.Proofs.MetaProofs
 import Grenad.Proofs.Wave3V1
 import Grenad.Props.C01
+import Grenad.Generated.Constants
 
 namespace Grenad.Props.C10
 
@@ -325,3 +326,12 @@ open Grenad.Props.C10
 #print axioms v1Setting
 #print axioms v1Check_true
 end Audit
+
+namespace Grenad.Props.C10
+
+/-- Translator tie: the version-1 magic number and record size in /repo's current sources. -/
+theorem C10_constants_from_source :
+    Grenad.Generated.magicV1 = 0x76324D4C ∧ Grenad.Generated.magicV1 = Grenad.Meta.magicV1 ∧
+    Grenad.Generated.metadataV1Size + 4 = 21 := by decide
+
+end Grenad.Props.C10
